@@ -431,6 +431,12 @@ def runC19 (t : Tier) : Emit Unit := do
       let kept := (ps.zipIdx.filter fun (p, idx) => !decide p idx).map (·.1)
       let ref := demuxCase (bytesOf kept) { view := .perpid } none none "ref"
       emit "C19" (demuxCase bs { view := .perpid, skipper := sk } none (some ref.model) tag)
+      -- the same with the packet size auto-detected (seekable and peekable readers): the skipper still applies
+      if i < 4 then
+        let refA := demuxCase (bytesOf kept) { view := .perpid, size := 0 } none none "ref"
+        emit "C19" (demuxCase bs { view := .perpid, skipper := sk, size := 0 } none none (tag ++ "-auto-size"))
+        emit "C19" (demuxCase bs { view := .perpid, skipper := sk, size := 0, kind := .bufio } none none (tag ++ "-auto-size"))
+        let _ := refA
       -- packets API: exactly the kept packets, in order
       let refP := demuxCase (bytesOf kept) { view := .outcomes, packetAPI := true } none none "ref"
       emit "C19" (demuxCase bs { view := .outcomes, packetAPI := true, skipper := sk } none (some refP.model) (tag ++ "-packets"))
